@@ -1101,11 +1101,10 @@ static void run_c15(const Args& A, std::map<std::string, std::string>& extra) {
   // (A1) E-tok per component
   for (int comp = 0; comp < 8; comp++) {
     auto ctxs = contexts(comp);
-    // quick: every length with every base; thorough: the longest length (k) without bases, shorter ones with bases
-    // (the base only contributes inherited components and the pathname merge, which k-1 tokens already span)
+    // lengths < k with every base, the longest length (k) without bases (the base only contributes inherited components
+    // and the pathname merge, which k-1 tokens already span)
     for (int pass = 0; pass < 2; pass++) {
-      int lo = pass == 0 ? 0 : k, hi = pass == 0 ? (T ? k - 1 : k) : k;
-      if (pass == 1 && !T) break;
+      int lo = pass == 0 ? 0 : k, hi = pass == 0 ? k - 1 : k;
       enum_tokens(alpha[comp], lo, hi, 0, 1, [&](const std::string& v, uint64_t) {
         if (int(ord++ % ns) != sh) return;
         if (timed_out()) return;
